@@ -132,6 +132,8 @@ func cssHandlers(in *sym.Interp) ([]*handlerInfo, error) {
 
 // C18: default CSS value handlers accept only inert values.
 func runC18(c *Ctx, ev *Evidence) ([]Violation, error) {
+	sym.LowerFragmentAxioms = true
+	defer func() { sym.LowerFragmentAxioms = false }()
 	timeout, grace := 20*time.Second, 1*time.Second
 	K := 2
 	if c.Tier == "thorough" {
